@@ -372,6 +372,8 @@ fn main() {
             // (the root state is a merge candidate in rooms D / E: three-set inputs are many)
             (3, 3, 1, creator_templates.clone(), vec!['E', 'D']),
             (4, 2, 1, vec![17, 18, 7, 19, 9], vec!['A']),
+            // a power-levels event under another state key next to the real ones, topics authorised under each
+            (4, 2, 1, vec![21, 14, 9, 10], vec!['A']),
             // the two widest passes last, so that the wall cap (if it is hit) cuts only them
             (2, 3, 2, all_templates.clone(), ab.clone()),
             (2, 3, 1, all17.clone(), vec!['C']),
